@@ -177,4 +177,28 @@ theorem not_repeated_merge_replayable :
       snap.ids = [2] ∧ merge s1 1 0 = .ok s2 ∧ s2.tip 0 = some 5 ∧
       snapAt s2.commits 5 = .error .noObject := ⟨_, _, _, rfl, rfl, rfl, rfl, rfl, rfl⟩
 
+/-! ### the child deletes an object the parent took over in an earlier merge -/
+
+/-- main: c1 adds o1; branch 1 created at c1; child c2 adds X (= 2); first merge: c3 on main adds
+    X; child c4 deletes X, c5 adds Y (= 3) -/
+def mergedDelete : State Nat Nat :=
+  { commits := [{ parent := 0, acts := [.add { id := 1, min := 1, max := 1, count := 1 }] },
+                { parent := 1, acts := [.add { id := 2, min := 2, max := 2, count := 1 }] },
+                { parent := 1, acts := [.add { id := 2, min := 2, max := 2, count := 1 }] },
+                { parent := 2, acts := [.del 2] },
+                { parent := 4, acts := [.add { id := 3, min := 3, max := 3, count := 1 }] }],
+    branches := [(0, 3), (1, 5)], files := [(1, [1]), (2, [2]), (3, [3])], nextObj := 4 }
+
+/-- **not_merge_removes_child_deleted.**  Read literally ("minus everything the child deleted
+    since the common ancestor"), a merge must remove X from main: the child deleted it after the
+    ancestor (commit 1).  In the code the child's add and delete of X cancel inside its patch and
+    the common ancestor stays commit 1 after the first merge, so the second merge only adds Y:
+    main ends with {o1, X, Y} while the child holds {o1, Y}.  (`merge_exact_partial` states the
+    NET reading — childAdded = Sc \ B, childDeleted = B \ Sc — which the code does satisfy.)
+    Replayed on the real code by the harness (witness:delete-of-merged-object). -/
+theorem not_merge_removes_child_deleted :
+    ∃ s' main child, merge mergedDelete 1 0 = .ok s' ∧ snapAt s'.commits 6 = .ok main ∧
+      main.ids = [1, 2, 3] ∧ snapAt mergedDelete.commits 5 = .ok child ∧ child.ids = [1, 3] :=
+  ⟨_, _, _, rfl, rfl, rfl, rfl, rfl⟩
+
 end Zed.Props.C15
